@@ -8,7 +8,8 @@ TEXT = ('Decibels::as_amplitude returns literal 1.0 on == 0.0 and literal 0.0 on
         'returns self untouched at Panning::CENTER and clamps otherwise; no Sub/SubAssign impl of ClockTime subtracts tick counts '
         'with a raw unsigned `-` (saturating_sub instead); ClockTime::partial_cmp yields None across clocks and compares '
         'ticks before fraction; every fraction stored by ClockTime Add/Sub arithmetic lies in [0, 1) by a rounding-aware interval evaluation; a mapping clamps before easing. Monotonicity, agreement with 10^(dB/20), round trips and '
-        'easing shapes are exhaustive-value statements and are not decided.')
+        'easing shapes are exhaustive-value statements and are not decided.'
+        ' The compound-assignment operators of ClockTime use their operand.')
 TECHNIQUE = 'MIR path-predicate / table rules + interval abstract interpretation of stored values'
 
 
@@ -19,6 +20,7 @@ def run(ctx, R, tier):
     sub(F, R)
     cmp_(F, R)
     frac(F, R)
+    assign_ops(F, R)
     c17.mapping(F, R)
 
 
@@ -120,6 +122,32 @@ def sub(F, R):
                     '%s subtracts tick counts with a raw unsigned `-` (%s): ClockTime{ticks: 1} - 2 overflows (panic in debug, wraps to '
                     '2^64-1 in release) while the f64 sibling saturates' % (it['path'], raw), detail={'impl': im['trait_ref']}, where=b.file)
     R.floor('B.C19.sub', n, 4)
+
+
+def assign_ops(F, R):
+    """The compound-assignment operators of ClockTime do something with their operand: each AddAssign / SubAssign impl
+    stores into `*self` (or its tick count) a value that depends on the right-hand side (through the sibling binary operator
+    or directly).  An impl that drops the operand makes `t += n` a no-op while `t + n` works."""
+    n = 0
+    for im in F.impls:
+        if im['self_ty'] != 'clock::time::ClockTime' or im['trait'] not in ('std::ops::AddAssign', 'std::ops::SubAssign'):
+            continue
+        for it in im['items']:
+            b = F.body(it['path'])
+            if b is None:
+                continue
+            n += 1
+            rhs = b.names.get(2, '_2')
+            dep = []
+            for bb, si, s in b.stmts():
+                if s['k'] == 'assign' and s['lhs']['p'] and pretty_place(b, s['lhs']).startswith('(*self)'):
+                    d = describe_rv(b, s['rv'], depth=6, at=bb)
+                    if rhs in d or '_2' in d:
+                        dep.append(d[:80])
+            R.check(bool(dep) , 'B.C19.assign', it['path'],
+                    '%s does not store anything that depends on its right-hand side into *self' % it['path'],
+                    detail={'stores': dep[:2]}, where=b.file)
+    R.floor('B.C19.assign', n, 4)
 
 
 def frac(F, R):
